@@ -75,6 +75,14 @@ def run_C11(ctx):
 
 
 def run_C05(ctx):
+    # converse direction first: the reference codec as a conformant foreign server, every encoder freedom
+    quick = ctx.tier == "quick"
+    peers = core.generate(ctx, "MC_Wire", "Gen_Wire_Peer.cfg", tag="genpeer")["scenarios"]
+    ctx.notes["peer_scenarios_generated"] = len(peers)
+    peers = core.sample(ctx.rng, peers, 6000 if quick else len(peers))
+    tf = core.run_runner(ctx, "e2e", peers, tag="peer")
+    acc, rej = core.validate(ctx, "TraceWire", tf, tag="peer", sigfn=sig("C05"))
+    core.judge(ctx, rej)
     return run_wire(ctx, ["C02", "C08", "C11", "C01"], 8000, 80000, 300)
 
 
